@@ -295,7 +295,7 @@ Proof.
   unfold psbt_serialize in Hb. apply bind_ok in Hb as [g [Hg Hb]].
   apply bind_ok in Hb as [ins [Hins Hb]]. apply bind_ok in Hb as [outs [Houts Hb]]. inversion Hb; subst b.
   unfold psbt_parse.
-  rewrite (eq_refl : read 5 (magic ++ g ++ ins ++ outs) = (magic, g ++ ins ++ outs)).
+  change (read 5 (112 :: 115 :: 98 :: 116 :: 255 :: g ++ ins ++ outs)) with (magic, g ++ ins ++ outs).
   cbv beta iota zeta.
   rewrite (eq_refl : check (beq (firstn 4 magic) (firstn 4 magic)) = Ok tt).
   rewrite (eq_refl : check (beq (skipn 4 magic) [255]) = Ok tt). cbn [bind].
